@@ -73,6 +73,19 @@ def menu_for(name, m):
     return base[:m]
 
 
+class _ReusedBuffer:
+    """A metric that writes its result into one preallocated array and returns that same array every time."""
+
+    def __init__(self, thr):
+        self.thr = thr
+        self.buf = np.zeros(4)
+
+    def __call__(self, s):
+        self.buf[:3] = np.nan_to_num(np.asarray(s.fnr(self.thr), dtype=float))
+        self.buf[3] = float(s.nb_hard_pos)
+        return self.buf
+
+
 def metric_specs(name):
     """[(label, metric (str or callable), kwargs)]"""
     from score_analysis.group_scores import groupwise
@@ -89,6 +102,7 @@ def metric_specs(name):
         ("callable-scalar", lambda s, **kw: float(s.fpr(2.0)) + kw.get("shift", 0.0), {"shift": 0.125}),
         ("callable-vector", lambda s, k=1: np.array([s.nb_hard_pos * k, s.nb_hard_neg, float(s.tpr(2.0))]), {"k": 3}),
         ("callable-matrix", lambda s: np.asarray(s.cm(thr).matrix, dtype=float), {}),
+        ("callable-reused-buffer", _ReusedBuffer(thr), {}),
     ]
     if name == "scores-nan-menu":
         specs = [sp for sp in specs if sp[0] in ("tpr@scalar", "fnr@array", "topr@2d")] + [
@@ -120,8 +134,8 @@ def work(tier, seed):
 
 def evaluate(metric, obj, kwargs):
     if isinstance(metric, str):
-        return np.asarray(getattr(type(obj), metric)(obj, **kwargs))
-    return np.asarray(metric(obj, **kwargs))
+        return np.array(getattr(type(obj), metric)(obj, **kwargs))
+    return np.array(metric(obj, **kwargs))  # a copy: the metric may reuse its output buffer
 
 
 def _eq(a, b):
@@ -215,6 +229,29 @@ def run(item, ctx, tier, seed):
                         ctx.fail("metric-evaluated-on-the-samples-in-order", case,
                                  observed=[("src" if o is src else "sample") for o in seen], expected="each sample once, in order")
                 ctx.outcome((label, rows.tobytes()))
+                # vector-valued alpha (quantile method): entry [y, z] is the interval of component y at alpha z
+                if n >= 2 and est.ndim >= 1 and not np.isnan(np.asarray(want, dtype=float)).any():
+                    calls3 = []
+
+                    def sampler3(s, _seq=seq, _calls=calls3):
+                        _calls.append(s)
+                        return menu[_seq[len(_calls) - 1]]
+
+                    alphas = np.array([0.1, 0.5, 0.9])
+                    cfg3 = BootstrapConfig(nb_samples=n, sampling_method=sampler3, bootstrap_method="quantile")
+                    ok, civ = guarded(ctx, "bootstrap_ci-vector-alpha", case, lambda: src.bootstrap_ci(metric, alphas, cfg3, **kwargs))
+                    ctx.tick()
+                    if ok:
+                        civ = np.asarray(civ, dtype=float)
+                        if civ.shape != est.shape + (3, 2):
+                            ctx.fail("ci-shape", dict(case, alpha="vector"), observed=list(civ.shape), expected=list(est.shape) + [3, 2])
+                        else:
+                            for z, a_ in enumerate(alphas.tolist()):
+                                wz, _ = ref_ci(want, est, a_, "quantile")
+                                if not np.allclose(civ[..., z, :], wz, rtol=0, atol=1e-9, equal_nan=True):
+                                    ctx.fail("ci-equals-formula-on-replicates", dict(case, alpha=a_, vector_alpha=True),
+                                             observed=civ[..., z, :], expected=wz)
+                                    break
                 # bootstrap_ci == documented formula on those replicates with metric(self) as estimate
                 wf = np.asarray(want, dtype=float).reshape(n, -1)
                 if np.isnan(wf).all(axis=0).any():
